@@ -160,12 +160,19 @@ def r2(ctx):
 
 def r3(ctx):
     hir = ctx.anchor_hir(PARSE_ORDER_BY)
-    # positional key: fields[idx - 1]
+    # positional key n -> select-list column n - 1 (index form or checked_sub(1) + get form)
     idx = [x for x in walk_exprs(hir) if x["k"] == "Index" and "fields" in render(x["e"])]
     ok = len(idx) == 1 and render(peel(idx[0]["i"], methods=False)) == "(idx - 1)"
+    if not idx:
+        gets = [c for c in walk_exprs(hir) if c["k"] == "MCall" and c["m"] == "get" and render(c["recv"]) == "fields"]
+        subs = [c for c in walk_exprs(hir) if c["k"] == "MCall" and c["m"] in ("checked_sub", "saturating_sub") and render(c["recv"]) == "idx"
+                and render(c["args"][0]) == "1"]
+        ok = len(gets) == 1 and len(subs) == 1 and any(y is gets[0] for y in walk_exprs(path_to(hir, gets[0])[-3][0])) and \
+            any(any(y is gets[0] for y in walk_exprs(a)) for c in walk_exprs(hir) if c["k"] == "MCall" and c["m"] == "and_then" and
+                any(y is subs[0] for y in walk_exprs(c["recv"])) for a in c["args"])
     ctx.obligation(ok)
     if not ok:
-        ctx.violation("parse_order_by/positional", ctx.where(PARSE_ORDER_BY), "a positional key n must denote select-list column n (index n - 1); found %s" % [render(x) for x in idx])
+        ctx.violation("parse_order_by/positional", ctx.where(PARSE_ORDER_BY), "a positional key n must denote select-list column n (index n - 1)")
     # pushes: one direction per key, default ascending
     pushes = [c for c in walk_exprs(hir) if c["k"] == "MCall" and c["m"] == "push"]
     by = {}
@@ -189,12 +196,18 @@ def r3(ctx):
     for mm in find_matches(hir):
         for a in match_arms(mm):
             if any("DescendingOrder" in render_pat(p) for p in pat_alts(a["pat"])):
-                asg = [x for x in walk_exprs(a["body"]) if x["k"] == "Assign"]
-                locs = Locals(a["body"])
-                if len(asg) == 1 and asg[0]["l"]["k"] == "Index" and render(asg[0]["r"]) == "false":
-                    i = render(locs.chase(asg[0]["l"]["i"])) if False else render(asg[0]["l"]["i"])
+                asg = [x for x in walk_exprs(a["body"]) if x["k"] == "Assign" and render(x["r"]) == "false"]
+                if len(asg) != 1:
+                    continue
+                l = asg[0]["l"]
+                if l["k"] == "Index":
+                    i = render(l["i"])
                     cnt = [x for x in walk(a["body"]) if x["k"] == "Let" and "len()" in render(x.get("init"))]
-                    desc_ok = i in ("(cnt - 1)",) and bool(cnt) or "len() - 1" in i
+                    desc_ok = ("direction" in render(l["e"])) and ((i == "(cnt - 1)" and bool(cnt)) or "len() - 1" in i)
+                elif l["k"] == "Un" and l["op"] == "*":
+                    # `match directions.last_mut() { Some(d) => *d = false, .. }`
+                    lm = [c for c in walk_exprs(a["body"]) if c["k"] == "MCall" and c["m"] == "last_mut" and "direction" in render(c["recv"])]
+                    desc_ok = len(lm) == 1
     ctx.obligation(desc_ok)
     if not desc_ok:
         ctx.violation("parse_order_by/desc", ctx.where(PARSE_ORDER_BY), "`desc` must set the direction of the last key (index len - 1) to false")
